@@ -76,6 +76,11 @@ pub fn install_quiet_panic_hook() {
     std::panic::set_hook(Box::new(|_| {}));
 }
 
+pub fn install_quiet_panic_hook_once() {
+    static ONCE: std::sync::Once = std::sync::Once::new();
+    ONCE.call_once(install_quiet_panic_hook);
+}
+
 pub fn panic_msg(e: Box<dyn std::any::Any + Send>) -> String {
     if let Some(s) = e.downcast_ref::<&str>() {
         s.to_string()
